@@ -8,10 +8,20 @@ CONTEXTS = {1: ("x86_SSE", 128), 2: ("x86_AVX", 256), 3: ("vector_128", 128), 4:
             5: ("vector_512", 512), 6: ("simde_AVX512", 512)}
 QUICK_CTX = [2, 3]
 ALL_CTX = [1, 2, 3, 4, 5, 6]
-GROUPS = ["unary", "binary", "reduce", "matmul"]
+GROUPS = ["unary", "binary", "reduce", "matmul", "int"]
+# the int32 group is not run with the compiler-vector-extension contexts: vector_type_t<bits,T> is declared with
+# vector_size(bits / sizeof(T)) *bytes*, i.e. twice (float/int32) the register width; loadu/set1 fill only bits/(8*sizeof(T)) lanes
+# and the arithmetic runs over the uninitialised upper lanes too.  For floats the garbage lanes are discarded; for int32 UBSan
+# reports signed overflow in them depending on stack garbage (nondeterministic -> would make the check flaky).
+# See findings/c12_vector_extension_register_width.md.
+INT_CTX = (1, 2, 6)
 
-NPT = {4: np.float32, 8: np.float64}
-TAG = {4: "f4", 8: "f8"}
+
+def group_runs(ctx, group):
+    return group != "int" or ctx in INT_CTX
+
+NPT = {4: np.float32, 8: np.float64, 32: np.int32}
+TAG = {4: "f4", 8: "f8", 32: "i4"}
 
 UNARY = {0: "sqrt", 1: "ceil", 2: "floor", 3: "relu", 4: "relu6", 5: "hardtanh", 6: "hardshrink", 7: "hardswish",
          8: "leaky_relu", 9: "prelu", 10: "softshrink", 11: "softsign"}
@@ -34,7 +44,7 @@ def compiles(ctx, form, op, dt):
 
 
 def lanes(ctx, dt):
-    return CONTEXTS[ctx][1] // (8 * dt)
+    return CONTEXTS[ctx][1] // (8 * (4 if dt == 32 else dt))
 
 
 def hexv(v):
@@ -420,4 +430,68 @@ def gen_matmul(ctx, tier, D):
     return out
 
 
-GEN = {"unary": [gen_unary], "binary": [gen_binary, gen_outer], "reduce": [gen_reduce], "matmul": [gen_matmul]}
+def gen_int(ctx, tier, D):
+    """int32 elements (dtype code 32): exact comparison; values small enough that nothing overflows"""
+    out = []
+    dt = 32
+    L = lanes(ctx, dt)
+    rng = D.rng
+
+    def ints(n, lo=-99, hi=99):
+        return [float(rng.randint(lo, hi) or 7) for _ in range(n)]
+
+    def factors(n):
+        v = [float(rng.choice((1, -1, 1, -1, 1))) for _ in range(n)]
+        for _ in range(min(12, n)):
+            v[rng.randrange(n)] *= rng.choice((2, 3))
+        return v
+
+    def fmt_i(v):
+        return "%d %s" % (len(v), " ".join(str(int(x)) for x in v))
+
+    def binary(op, ls, rs, cls):
+        a, b = ints(prod(ls)), ints(prod(rs))
+        line = "ibinary %d %s %s %s %s" % (op, fmt_shape(ls), fmt_shape(rs), fmt_i(a), fmt_i(b))
+        out.append(Case("binary", op, "int32_" + BINARY[op], ctx, dt, line, dict(ls=ls, rs=rs, a=a, b=b, lay=0, cls=cls)))
+
+    def outer(op, ls, rs, cls):
+        a, b = ints(prod(ls)), ints(prod(rs))
+        line = "iouter %d %s %s %s %s" % (op, fmt_shape(ls), fmt_shape(rs), fmt_i(a), fmt_i(b))
+        out.append(Case("outer", op, "int32_" + OUTER[op], ctx, dt, line, dict(ls=ls, rs=rs, a=a, b=b, lay=0, cls=cls)))
+
+    def reduce(op, shape, axis, kd):
+        data = ints(prod(shape)) if op == 0 else factors(prod(shape))
+        line = "ireduce %d %d %d %s %s" % (op, -99 if axis is None else axis, kd, fmt_shape(shape), fmt_i(data))
+        out.append(Case("reduce", op, "int32_" + REDUCE[op], ctx, dt, line,
+                        dict(shape=shape, a=data, axis=axis, keepdims=kd, variant=0, initial=0.0, lay=0, kind="ints",
+                             cls=reduce_cls(shape, axis, 0))))
+
+    for op in (0, 1, 2):
+        for n in sizes_1d(L):
+            binary(op, [n], [n], "same_1d")
+        for shape in [[2, L + 1], [3, L], [2, 3, L - 1 or 1]]:
+            binary(op, shape, shape, "same_nd")
+        for n in few_sizes(L):
+            for ls, rs in [([2, n], [2, 1]), ([3, 1], [1, n]), ([1, n], [3, n]), ([2, n], [1, n]), ([3, 1], [3, n])]:
+                if prod(ls) > 1 and prod(rs) > 1:
+                    binary(op, ls, rs, bcast_cls(ls, rs))
+    for op in (0, 2):
+        for n in sizes_1d(L):
+            outer(op, [3], [n], "1d_1d")
+        for n in few_sizes(L):
+            outer(op, [2, 3], [2, n], "2d_2d")
+    for op in REDUCE:
+        for n in sizes_1d(L):
+            for axis in (None, 0):
+                reduce(op, [n], axis, 0)
+        for n in some_sizes(L):
+            for m in (2, 3):
+                for axis in (None, 0, 1):
+                    reduce(op, [m, n], axis, n % 2)
+        for n in few_sizes(L):
+            for axis in (0, 1, 2):
+                reduce(op, [2, 3, n], axis, 0)
+    return out
+
+
+GEN = {"int": [gen_int], "unary": [gen_unary], "binary": [gen_binary, gen_outer], "reduce": [gen_reduce], "matmul": [gen_matmul]}
